@@ -161,6 +161,8 @@ def gen_op(rng, kind):
              'positional': rng.random() < 0.5}
     else:
         raise core.HarnessError(kind)
+    if kind != RAW_OP and rng.random() < 0.5:
+        a['pos'] = True
     return {'op': kind, 'args': a}
 
 
@@ -337,7 +339,7 @@ def _model(m, op, a):
     if op == RAW_OP:
         data = core.rnd_bytes(a['data_seed'], a['len'])
         return None, not m.write_cart_data(data, a['start_addr'])
-    kw = {k: v for k, v in a.items() if k != 'as_bytearray'}
+    kw = {k: v for k, v in a.items() if k not in ('as_bytearray', 'pos')}
     if op == 'gfx.set_sprite':
         return m.gfx_set_sprite(kw['id'], kw['sprite'],
                                 kw.get('tile_x_offset', 0),
@@ -345,9 +347,44 @@ def _model(m, op, a):
     return getattr(m, sec + '_' + meth)(**kw), False
 
 
+POSITIONAL = {
+    'gfx.get_sprite': ('id', 'tile_width', 'tile_height'),
+    'gfx.set_sprite': ('id', 'sprite', 'tile_x_offset', 'tile_y_offset'),
+    'map.get_cell': ('x', 'y'),
+    'map.set_cell': ('x', 'y', 'val'),
+    'map.get_rect_tiles': ('x', 'y', 'width', 'height'),
+    'map.set_rect_tiles': ('rect', 'x', 'y'),
+    'map.get_rect_pixels': ('x', 'y', 'width', 'height'),
+    'gff.get_flags': ('id', 'flags'), 'gff.set_flags': ('id', 'flags'),
+    'gff.clear_flags': ('id', 'flags'), 'gff.reset_flags': ('id', 'flags'),
+    'sfx.get_note': ('id', 'note'),
+    'sfx.set_note': ('id', 'note', 'pitch', 'waveform', 'volume', 'effect'),
+    'sfx.get_properties': ('id',),
+    'sfx.set_properties': ('id', 'editor_mode', 'note_duration', 'loop_start',
+                           'loop_end'),
+    'music.get_channel': ('id', 'channel'),
+    'music.set_channel': ('id', 'channel', 'pattern'),
+    'music.get_properties': ('id',),
+    'music.set_properties': ('id', 'begin', 'end', 'stop'),
+}
+
+
 def _real(g, op, a):
-    """Apply op to the real game -> result (may raise)."""
+    """Apply op to the real game -> result (may raise).  With a['pos'] the
+    arguments are passed positionally in the documented order (as far as they
+    are given contiguously), otherwise by keyword."""
     sec, meth = op.split('.')
+    if a.get('pos') and op in POSITIONAL:
+        kw = {k: v for k, v in a.items() if k not in ('as_bytearray', 'pos')}
+        if op == 'gfx.set_sprite' and a.get('as_bytearray'):
+            kw['sprite'] = [bytearray(r) for r in kw['sprite']]
+        args = []
+        for name in POSITIONAL[op]:
+            if name in kw:
+                args.append(kw.pop(name))
+            else:
+                break
+        return getattr(getattr(g, sec), meth)(*args, **kw)
     if op == RAW_OP:
         data = core.rnd_bytes(a['data_seed'], a['len'])
         if a.get('as_bytearray'):
@@ -356,7 +393,7 @@ def _real(g, op, a):
             return g.write_cart_data(data, a['start_addr'])
         return g.write_cart_data(data=data, start_addr=a['start_addr'])
     target = getattr(g, sec)
-    kw = {k: v for k, v in a.items() if k != 'as_bytearray'}
+    kw = {k: v for k, v in a.items() if k not in ('as_bytearray', 'pos')}
     if op == 'gfx.set_sprite':
         spr = kw.pop('sprite')
         if a.get('as_bytearray'):
